@@ -114,6 +114,22 @@ pub fn gen_unknown(s: &mut Src) -> String {
     let t = match s.weighted(&[45, 25, 30, 9, 3]) {
         4 => {
             // a very long line (up to ~70 000 characters): nothing bounds the length of a line
+            if s.chance(45) {
+                // ONE long token that has a command word glued into it right at (or next to) a
+                // power-of-two offset: as a token it is no command (so no engine may answer it),
+                // but a reader that cuts lines into blocks of 4 KiB .. 64 KiB would see the word
+                // at the start of a block
+                let at = *s.pick(&[4_096usize, 8_192, 16_384, 32_768, 65_536, 65_536, 65_536]) + *s.pick(&[0usize, 0, 0, 1]) - *s.pick(&[0usize, 0, 1]);
+                let word = *s.pick(&["isready", "uci", "quit", "go depth 1", "isready", "ucinewgame"]);
+                let fill = ["x", "q", "7"][s.below(3)];
+                let mut t = fill.repeat(at);
+                t.push_str(word);
+                if s.bool() {
+                    t.push_str(" tail");
+                }
+                // the glued word never stands alone as a token
+                return t;
+            }
             let n = *s.pick(&[300usize, 1_000, 4_100, 8_200, 16_400, 33_000, 66_000, 70_000]);
             let word = ["x", "abc", "e2e4", "zzzzzzzz"][s.below(4)];
             let mut t = String::with_capacity(n + 16);
